@@ -66,7 +66,10 @@ def replay_pattern_function(obligation: str = "", model: Optional[Dict[str, str]
 
 STRING_ALTERNATIVES = ['""', '"^$"', '"*"', "1", 'f"{x}"', '"\\u00b2"', "None",
                        # rejected patterns with literal line breaks (the error has to be rendered), a trailing '|'
-                       '"^\\n\\\\d$"', '"[\\r"', '"^a$|"']
+                       '"^\\n\\\\d$"', '"[\\r"', '"^a$|"',
+                       # texts that docutils warns about, in the usual multi-line layout (closing quotes on their own
+                       # line): the error quotes the text, which ends in a line break
+                       '"""\n    Represent *something.\n    """', '"""\n    Represent something.\n\n    * item\n    continued\n    """']
 
 
 def _mutants(text: str) -> Any:
